@@ -91,6 +91,10 @@ var rulesKindOrder = []string{"string", "int8", "int16", "int32", "int64", "int"
 // at 2^40 (where halves are still exact).
 const rulesBigModel = 400000000
 
+// The end of the int64 range: the model's rulesExtModel - d stands for MaxInt64 - d, -(rulesExtModel - d) for
+// MinInt64 + d (d small; 4 * rulesExtModel still fits TLC's integers, and Rules!FAR lies beyond it).
+const rulesExtModel = 500000000
+
 func rulesBigReal(kind string) int64 {
 	switch rulesKinds[kind].class {
 	case "float":
@@ -102,6 +106,14 @@ func rulesBigReal(kind string) int64 {
 }
 
 func rulesReal(kind string, x int64) int64 {
+	if c := rulesKinds[kind].class; c == "int" || c == "uint" {
+		if x > rulesExtModel-1000 {
+			return math.MaxInt64 - (rulesExtModel - x)
+		}
+		if x < -(rulesExtModel - 1000) {
+			return math.MinInt64 + (x + rulesExtModel)
+		}
+	}
 	if x >= rulesBigModel/2 {
 		return x - rulesBigModel + rulesBigReal(kind)
 	}
@@ -138,18 +150,26 @@ func rulesConc(kind string, v rulesVal) (reflect.Value, error) {
 			if n < 1 || len(v.Cps) == 0 {
 				return rv, fmt.Errorf("string_rep of %d characters over %v", n, v.Cps)
 			}
-			rs := make([]rune, n)
-			for i := range rs {
-				rs[i] = rune(v.Cps[i%len(v.Cps)])
+			var bs []byte
+			for i := 0; i < n; i++ {
+				if c := v.Cps[i%len(v.Cps)]; c < 0 {
+					bs = append(bs, 0xff)
+				} else {
+					bs = append(bs, string(rune(c))...)
+				}
 			}
-			rv.SetString(string(rs))
+			rv.SetString(string(bs))
 			break
 		}
-		rs := make([]rune, len(v.Cps))
-		for i, c := range v.Cps {
-			rs[i] = rune(c)
+		var bs []byte
+		for _, c := range v.Cps {
+			if c < 0 { // a byte that is not UTF-8 at all (0xff): one character for every way of counting runes
+				bs = append(bs, 0xff)
+			} else {
+				bs = append(bs, string(rune(c))...)
+			}
 		}
-		rv.SetString(string(rs))
+		rv.SetString(string(bs))
 	case "int":
 		x := rulesReal(kind, v.N)
 		bits := uint(ki.t.Bits())
@@ -257,10 +277,29 @@ func rulesTagType(t reflect.Type, rules string) reflect.Type {
 	return st
 }
 
+// rulesEscCase writes the hex digits of every second text's percent-escapes in lower case (RFC 3986: %3f = %3F).
+func rulesEscCase(s string, rng *rand.Rand) string {
+	if rng.Intn(2) == 0 {
+		return s
+	}
+	b := []byte(s)
+	for i := 0; i+2 < len(b); i++ {
+		if b[i] == '%' {
+			for k := i + 1; k <= i+2; k++ {
+				if b[k] >= 'A' && b[k] <= 'F' {
+					b[k] += 'a' - 'A'
+				}
+			}
+			i += 2
+		}
+	}
+	return string(b)
+}
+
 func rulesURL(val string, escape, many bool, rng *rand.Rand) string {
 	enc := func(s string) string {
 		if escape {
-			return url.QueryEscape(s)
+			return rulesEscCase(url.QueryEscape(s), rng)
 		}
 		return s
 	}
@@ -322,9 +361,9 @@ func rulesCall(carrier, kind string, v reflect.Value, rules string, rng *rand.Ra
 	case "urlne":
 		err = valid.Url(rulesURL(v.String(), true, true, rng), valid.RM{rulesKey: rules, "zz": "to=1~0|tkz"})
 	case "urlw":
-		err = valid.Url(url.QueryEscape(rulesURL(v.String(), false, false, rng)), valid.RM{rulesKey: rules})
+		err = valid.Url(rulesEscCase(url.QueryEscape(rulesURL(v.String(), false, false, rng)), rng), valid.RM{rulesKey: rules})
 	case "urlwn":
-		err = valid.Url(url.QueryEscape(rulesURL(v.String(), false, true, rng)), valid.RM{rulesKey: rules, "zz": "to=1~0|tkz"})
+		err = valid.Url(rulesEscCase(url.QueryEscape(rulesURL(v.String(), false, true, rng)), rng), valid.RM{rulesKey: rules, "zz": "to=1~0|tkz"})
 	default:
 		panic("unknown carrier " + carrier)
 	}
@@ -573,7 +612,7 @@ func rulesOne(args []string) error {
 
 var rulesIntervalRules = []string{"to", "ge", "le", "oto", "gt", "lt", "eq", "noeq"}
 
-var rulesAlphabet = []int32{97, 233, 20013, 128512, 48, 90}
+var rulesAlphabet = []int32{97, 233, 20013, 128512, 48, 90, -1} // -1: the byte 0xff (not UTF-8)
 
 type rulesTuple struct {
 	ID       int     `json:"id"`
@@ -603,6 +642,9 @@ func rulesRandomValue(rng *rand.Rand, kind string, target int64) rulesVal {
 		if ki.class != "uint" && rng.Intn(2) == 0 {
 			v.Far = -1
 		}
+		if ki.class == "int" { // MaxInt64 / MinInt64 are ordinary numbers of the extreme region (a bound can equal them)
+			v.N, v.Far = int64(v.Far)*rulesExtModel, 0
+		}
 		return v
 	}
 	wide := ki.class == "float" && ki.t.Bits() == 64 || (ki.class == "int" || ki.class == "uint") && ki.t.Bits() == 64
@@ -623,6 +665,9 @@ func rulesRandomValue(rng *rand.Rand, kind string, target int64) rulesVal {
 		min, max := int64(-1)<<(bits-1), int64(1)<<(bits-1)-1
 		if bits == 64 {
 			min, max = -rulesBigModel-100, rulesBigModel+100
+			if target > rulesExtModel-1000 || target < -(rulesExtModel-1000) {
+				min, max = -rulesExtModel, rulesExtModel
+			}
 		}
 		if target < min {
 			target = min
@@ -637,6 +682,9 @@ func rulesRandomValue(rng *rand.Rand, kind string, target int64) rulesVal {
 	case "uint":
 		bits := uint(ki.t.Bits())
 		max := int64(rulesBigModel + 100)
+		if bits == 64 && target > rulesExtModel-1000 {
+			max = rulesExtModel
+		}
 		if bits < 64 {
 			max = int64(1)<<bits - 1
 		}
@@ -728,6 +776,11 @@ func rulesRecord(args []string) error {
 		if big { // a bound beyond 32 bits (model: rulesBigModel + d, real: 2^53 + d for integers, 2^40 + d for floats)
 			lo = (1 - 2*rng.Intn(2)) * (rulesBigModel + rulesRndIn(rng, -3, 3))
 		}
+		// a bound at the very end of the int64 range (64-bit integer kinds only: the others have no value near it)
+		ext := (class == "int" || class == "uint") && rulesKinds[kind].t.Bits() == 64 && rng.Intn(12) == 0
+		if ext {
+			lo = (1 - 2*rng.Intn(2)) * (rulesExtModel - rulesRndIn(rng, 0, 2))
+		}
 		hi := lo
 		if rule == "to" || rule == "oto" {
 			if rng.Intn(3) == 0 {
@@ -735,6 +788,12 @@ func rulesRecord(args []string) error {
 			} else {
 				hi = lo + rulesRndIn(rng, -2, 6)
 			}
+		}
+		if hi > rulesExtModel {
+			hi = rulesExtModel
+		}
+		if hi < -rulesExtModel {
+			hi = -rulesExtModel
 		}
 		b := lo
 		if rng.Intn(2) == 0 {
